@@ -22,7 +22,12 @@ Proof.
   rewrite firstn_app_2. cbn. now rewrite app_nil_r.
 Qed.
 
-Ltac cuteq := repeat first [reflexivity | lia | progress f_equal].
+(* n - (a - b) - (b - c) = n - (a - c): collapses the chains of truncated subtractions one link at a time (a single lia call on
+   the whole chain is exponential in its length) *)
+Lemma cut_arith n a b c : c <= b -> b <= a -> n - (a - b) - (b - c) = n - (a - c).
+Proof. lia. Qed.
+Ltac cuteq_nat := repeat (rewrite cut_arith by lia); first [reflexivity | lia].
+Ltac cuteq := repeat first [reflexivity | match goal with |- @eq nat _ _ => cuteq_nat end | lia | progress f_equal].
 
 (* ---- primitives ---- *)
 Lemma eat_trunc c s r : eat c s = Some r -> forall n, len s - len r <= n -> eat c (firstn n s) = Some (cut n s r).
